@@ -17,6 +17,11 @@ TEXTS = {
         "level_text": "Exploration: every parsed message of >10^6 generated streams is written, re-read and re-written; bytes are additionally decoded by the independent reference decoder.",
         "level_note": "htyp version bits / original len are outside the statement; binary-level `adlt convert -o` round trip is part of C14",
     },
+    "C03": {
+        "technique": T + "isolated-worker crash monitor: panic hook with site/message capture per pipeline stage, supervisor watching exit status / signals / stalls, counting global allocator; ASan, valgrind and Miri shards repeat the corpus in thorough",
+        "level_text": "Exploration: >10^5 mutated and grammar-generated inputs per quick run through the complete ingestion/analysis chain; every panic site is reported with its input; known genuine panics are listed by (site, message) and everything else fails the check.",
+        "level_note": "a clean run is not a proof of absence; reach is reported per format and stage",
+    },
     "C04": {
         "technique": T + "differential oracle over scripted short-read schedules and suffix positions (same real code, different chunking) + reference-model (data,pos) monitor of every fill_buf/consume/read/seek of LowMarkBufReader",
         "level_text": "Exploration: tens of thousands of >70 KB streams per quick run parsed under adversarial read schedules and compared message-by-message with the whole-buffer parse; millions of reader operations checked against a two-variable model.",
